@@ -481,12 +481,13 @@ pub open spec fn ascii_bytes(s: Seq<u8>) -> bool { forall|i: int| 0 <= i < s.len
             },
             None => true,
         },
+//@bind err ~ReadIoError\((?:ref )?([a-z]\w*)\)\) if~
 //@entry
-        broadcast use axiom_chan_of_seq_writer, axiom_chan_of_box, axiom_wchan_preserved_mut, axiom_find_post, axiom_contains_str, lemma_as_ref_index, lemma_as_ref_index_fwd;
+        broadcast use axiom_chan_of_seq_writer, axiom_chan_of_box, axiom_wchan_preserved_mut, axiom_find_post, axiom_contains_str, lemma_as_ref_index, lemma_as_ref_index_fwd, axiom_into_reflexive;
 //@loop 1
             invariant self.prior_handed_off(), !self.closing(), !old(self).closing(),
 //@loopentry 1
-            broadcast use axiom_chan_of_seq_writer, axiom_chan_of_box, axiom_wchan_preserved_mut, axiom_find_post, axiom_contains_str, lemma_as_ref_index, lemma_as_ref_index_fwd;
+            broadcast use axiom_chan_of_seq_writer, axiom_chan_of_box, axiom_wchan_preserved_mut, axiom_find_post, axiom_contains_str, lemma_as_ref_index, lemma_as_ref_index_fwd, axiom_into_reflexive;
 //@before? 1 return None @after Err(ReadError::WrongRequestLine)
                     // O-CLASSIFY (C10): malformed request line -> 400 as HTTP/1.1, with body allowed, then close
                     proof { assert(print_attempted(400, false, false, 1, 1)); }
@@ -496,9 +497,18 @@ pub open spec fn ascii_bytes(s: Seq<u8>) -> bool { forall|i: int| 0 <= i < s.len
 //@before? 1 return None @after ErrorKind::TimedOut
                     // read timeout -> 408, then close
                     proof { assert(print_attempted(408, false, false, 1, 1)); }
+                    // O-SILENT (C10, C15): ... and ONLY a timeout: every other I/O error while reading a head (the client went
+                    // away, reset, bytes that are not ASCII) ends the connection without anything being written to it
+                    proof { assert(io_error_kind(&$err) == ErrorKind::TimedOut); }   // [C10,C15]
 //@before? 1 return None @after Err(ReadError::ExpectationFailed(ver))
                     // unsupported Expect value -> 417 (head only), then close
                     proof { assert(print_attempted(417, true, false, ver.0, ver.1)); }
+//@before 1 continue
+                // O-505 (C10): a version above 1.1 is answered 505 as HTTP/1.1 (with its explanatory body) on the rejected
+                // request's own writer and the answer is flushed before the next head is read -- nothing else pushes it
+                // out while the connection stays open (raw_print does not flush).  flush_called() is stateless: it shows a
+                // flush on this path, not its position relative to the print
+                proof { assert(print_attempted(505, false, false, 1, 1) && flush_called()); }   // [C10]
 //@after 1 let lowercase
             proof {
                 let name = "Connection"@;
